@@ -444,10 +444,10 @@ Section SyncDoc.
       match goal with |- context [apply_docsync cf ?ds ?a ?b ?dr] =>
         destruct (apply_docsync cf ds a b dr) as [d0 e0] end;
       (destruct (read_doc fn ddir) as [|kv rest];
-       [ destruct e0; [apply W|]; cbn [fst]; destruct (kvs_eqb d0 []); [reflexivity|apply W] | ]);
+       [ destruct e0; [cbn [fst]; destruct (o_dry_run o && fix_shared cf); [reflexivity|apply W]|]; cbn [fst]; destruct (kvs_eqb d0 []); [reflexivity|apply W] | ]);
       (destruct (alookup fn ddir) as [[c mt|es]|];
-       [ | destruct e0; [apply W|]; cbn [fst]; destruct (kvs_eqb d0 (kv :: rest)); [reflexivity|apply W]
-         | destruct e0; [apply W|]; cbn [fst]; destruct (kvs_eqb d0 (kv :: rest)); [reflexivity|apply W] ]);
+       [ | destruct e0; [cbn [fst]; destruct (o_dry_run o && fix_shared cf); [reflexivity|apply W]|]; cbn [fst]; destruct (kvs_eqb d0 (kv :: rest)); [reflexivity|apply W]
+         | destruct e0; [cbn [fst]; destruct (o_dry_run o && fix_shared cf); [reflexivity|apply W]|]; cbn [fst]; destruct (kvs_eqb d0 (kv :: rest)); [reflexivity|apply W] ]);
       (destruct (alookup (backup_name fn) ddir) as [[c2 m2|es2]|]; try reflexivity);
       (destruct (o_dry_run o);
        [ cbn [fst]; destruct (kvs_eqb d0 (kv :: rest)); [reflexivity|apply W] | ]);
